@@ -159,6 +159,7 @@ package validator
 //@   ensures [C03:result-iff-nonempty] has(result, "result") == (len(results) != 0)
 //@   ensures [C03,C12:result-list] len(results) != 0 ==> result["result"] == box([]any, results)
 //@   ensures [C03:date-iff-configured] has(result, "dateCreated") == reportConfig.IncludeReportCreationTime
+//@   ensures [C03:date-is-the-configured-time] reportConfig.IncludeReportCreationTime ==> result["dateCreated"] == box(string, timeFormat(cfgTime(validationConfig), "2006-01-02T15:04:05Z07:00"))
 //@   ensures [C03,C12:id] result["@id"] == box(string, "validation-report")
 //@   ensures [C03:keys] forall k string :: has(result, k) ==> (k == "@id" || k == "@type" || k == "profileName" || k == "conforms" || k == "dateCreated" || k == "result")
 //@   ensures [C03:frame] forall m map[string]any :: ref(m) <= old(alloc) ==> unchanged(m)
